@@ -95,6 +95,8 @@ def run_replay(modname, cname, args, tier, seed, no_excl=False):
         return True, "replay did not terminate within 300 s (non-termination reproduced)"
     txt = (p.stdout or "").strip().splitlines()
     for line in txt:
+        if line.startswith("REPRODUCED: harness-error"):
+            return None, line[len("REPRODUCED: "):]
         if line.startswith("REPRODUCED: "):
             return True, line[len("REPRODUCED: "):]
     if p.returncode not in (0, 1):
